@@ -5,4 +5,7 @@ def stepSlack : Nat := 10
 /-- the loop checks `!r.dag && step >= maxSteps` before submitting the step's tasks -/
 def stepGuardBeforeSubmit : Bool := true
 def stepGuardOp : String := ">="
+/-- `Chain.AppendBranch` never assigns to (a field of) the `*ChainBranch` it is given: the table
+    branch key → node key of an append is a local captured by that append's closures -/
+def appendBranchLeavesBuilderIntact : Bool := true
 end EinoV.Expected.C01
